@@ -10,7 +10,7 @@ import Boario.Init
 import Boario.Layout
 import Boario.Impact
 import Boario.Labels
--- import Boario.Records
+import Boario.Records
 
 open Lean Boario
 
@@ -581,6 +581,45 @@ def opAdmit (j : Json) : Except String Json := do
   let ok := decide (0 < occ ∧ occ ≤ T ∧ 0 < occ + dur ∧ occ + dur ≤ T)
   pure <| Json.mkObj [("admitted", ok)]
 
+/-! ### record layer -/
+
+def parseEnd (s : String) : Except String Records.StepEnd :=
+  match s with
+  | "ok" => .ok .ok
+  | "crash" => .ok .crash
+  | "exc:events" => .ok (.excIn .events)
+  | "exc:overprod" => .ok (.excIn .overprod)
+  | "exc:production" => .ok (.excIn .production)
+  | "exc:distribution" => .ok (.excIn .distribution)
+  | _ => .error s!"unknown step end {s}"
+
+def opRecords (j : Json) : Except String Json := do
+  let savedJ ← fld j "saved"
+  let savedArr ← match savedJ.getArr? with
+    | .ok a => pure a
+    | .error _ => throw "saved: array expected"
+  let saved ← savedArr.toList.mapM fun x => match x.getStr? with
+    | .ok s => pure s
+    | .error _ => throw "saved: string expected"
+  for nm in saved do
+    if !(Records.allRecs.any fun r => r.name == nm) then throw s!"unknown record {nm}"
+  let reg ← getBool j "registerStocks"
+  let T ← getNat j "T"
+  let endsJ ← fld j "ends"
+  let endsArr ← match endsJ.getArr? with
+    | .ok a => pure a
+    | .error _ => throw "ends: array expected"
+  let ends ← endsArr.toList.mapM fun x => match x.getStr? with
+    | .ok s => parseEnd s
+    | .error _ => throw "ends: string expected"
+  let cfg : Records.Cfg := { saved := fun r => saved.contains r.name, registerStocks := reg }
+  -- the value recorded at step t is t itself: enough to read off which rows were written
+  let steps : List ((Records.Rec → Nat) × Records.StepEnd) := ends.zipIdx.map fun (e, t) => ((fun _ => t), e)
+  let (log, done) := Records.runLog cfg steps 0 Records.emptyLog
+  let written := Records.allRecs.map fun r =>
+    (r.name, Json.arr (((List.range T).filter (fun t => (log r t).isSome)).map (fun (t : Nat) => Json.num (t : Nat))).toArray)
+  pure <| Json.mkObj [("written", Json.mkObj written), ("completed", (done : Json))]
+
 /-! ### dispatcher -/
 
 def handle (ctx : Option Ctx) (line : String) : Option Ctx × Json :=
@@ -616,7 +655,7 @@ def handle (ctx : Option Ctx) (line : String) : Option Ctx × Json :=
       | "admission" => pure' opAdmit
       | "impact" => pure' opImpact
       | "canon" => pure' opCanon
---    | "records" => pure' Boario.Driver.opRecords
+      | "records" => pure' opRecords
       | _ => (ctx, Json.mkObj [("bad-op", Json.str s!"unknown op {op}")])
 
 partial def loop (h : IO.FS.Stream) (out : IO.FS.Stream) (ctx : Option Ctx) : IO Unit := do
